@@ -12,6 +12,7 @@ import (
 	"go/ast"
 	"go/parser"
 	"go/token"
+	"go/types"
 	"io"
 	"os"
 	"path/filepath"
@@ -20,12 +21,13 @@ import (
 	"strconv"
 	"strings"
 
+	"golang.org/x/tools/go/ssa"
 	"google.golang.org/protobuf/encoding/protowire"
 	"google.golang.org/protobuf/proto"
 	"google.golang.org/protobuf/types/descriptorpb"
 )
 
-func init() { register("C20", false, false, "translation_validation", runC20) }
+func init() { register("C20", true, true, "translation_validation", runC20) }
 
 type genFile struct {
 	path    string // go file
@@ -466,6 +468,9 @@ func c20Registration(cx *Ctx, r *Report, gm map[string]*genFile, svcs map[string
 				return true
 			})
 		}
+		// the same through the type-checked program, whatever the spelling: the interface
+		// pointer or the descriptor may sit in a local, the calls in a helper
+		ssaRegistrations(cx, modPrefix+rel(dir), pr.impls, pr.svcDescs)
 		return pr
 	}
 	var names []string
@@ -723,4 +728,80 @@ func exprString(e ast.Expr) string {
 		return exprString(x.X) + x.Op.String() + exprString(x.Y)
 	}
 	return fmt.Sprintf("%T", e)
+}
+
+// ssaRegistrations: in the functions of package path, the types handed to
+// InterfaceRegistry.RegisterImplementations with a *sdk.Msg first argument, and the
+// globals handed to msgservice.RegisterMsgServiceDesc.
+func ssaRegistrations(cx *Ctx, path string, impls, descs map[string]bool) {
+	peel := func(v ssa.Value) ssa.Value {
+		for {
+			switch x := v.(type) {
+			case *ssa.MakeInterface:
+				v = x.X
+			case *ssa.ChangeType:
+				v = x.X
+			case *ssa.ChangeInterface:
+				v = x.X
+			default:
+				return v
+			}
+		}
+	}
+	for _, f := range cx.P.AllFuncs {
+		if f.Blocks == nil || funcPkgPath(f) != path {
+			continue
+		}
+		for _, b := range f.Blocks {
+			for _, ins := range b.Instrs {
+				ci, ok := ins.(ssa.CallInstruction)
+				if !ok {
+					continue
+				}
+				c := ci.Common()
+				_, name := calleeName(c)
+				switch {
+				case strings.HasSuffix(name, "RegisterImplementations") && len(c.Args) >= 2:
+					first := peel(c.Args[0])
+					pt, isPtr := first.Type().(*types.Pointer)
+					if !isPtr {
+						continue
+					}
+					// sdk.Msg (an alias of the gogoproto Message interface in this SDK)
+					isMsg := false
+					for _, t := range []types.Type{pt.Elem(), types.Unalias(pt.Elem())} {
+						var obj *types.TypeName
+						switch tt := t.(type) {
+						case *types.Alias:
+							obj = tt.Obj()
+						case *types.Named:
+							obj = tt.Obj()
+						}
+						if obj == nil || obj.Pkg() == nil {
+							continue
+						}
+						if obj.Name() == "Msg" && obj.Pkg().Path() == "github.com/cosmos/cosmos-sdk/types" || obj.Name() == "Message" && obj.Pkg().Path() == "github.com/cosmos/gogoproto/proto" {
+							isMsg = true
+						}
+					}
+					if !isMsg {
+						continue
+					}
+					for _, e := range variadicElems(c.Args[len(c.Args)-1]) {
+						if e == nil {
+							continue
+						}
+						if tn := namedOf(peel(e).Type()); tn != nil {
+							impls[tn.Obj().Name()] = true
+						}
+					}
+				case strings.HasSuffix(name, "RegisterMsgServiceDesc") && len(c.Args) == 2:
+					v := peel(c.Args[1])
+					if g, isG := v.(*ssa.Global); isG {
+						descs["&"+g.Name()] = true
+					}
+				}
+			}
+		}
+	}
 }
